@@ -550,7 +550,13 @@ func RunIgnoreConfigs(r *evid.Run, eng *Engine, perBase map[string][]Instance, b
 				if kind == "" {
 					continue
 				}
-				r.Violate("unreported-under-ignore-config/"+shape+"/"+kind,
+				sig := "unreported-under-ignore-config/" + shape + "/" + kind
+				if ex.Role != "" {
+					// a role names a structural reason that does not depend on the configuration (same signature as
+					// in the main phase, e.g. the known editions LEGACY_REQUIRED finding)
+					sig = "unreported/" + ex.Rule + "/" + ex.Role + "/" + kind
+				}
+				r.Violate(sig,
 					fmt.Sprintf("%s under %s (map seed %d): rule %s is active for %q (no ignore entry standing for the rule names a path containing the file), expected an annotation naming %v (line %d), failure: %s; got %d annotation(s) of that rule",
 						in.ID(), j.cfg, seed, ex.Rule, ex.File, ex.Names, line, kind, countType(anns, ex.Rule)),
 					mk(&ex, line))
